@@ -352,7 +352,7 @@ def all_locks(L):
 class Explorer:
     """Stateless DFS over schedules with a preemption bound (CHESS style)."""
 
-    def __init__(self, run_once, bound=2, max_runs=400, by_preemptions=False, seed=0):
+    def __init__(self, run_once, bound=2, max_runs=400, by_preemptions=False, seed=0, extra_random=0):
         self.run_once = run_once      # run_once(choose) -> result (uses a fresh Scheduler)
         self.bound = bound
         self.max_runs = max_runs
@@ -360,14 +360,19 @@ class Explorer:
         # ALL non-preemptive thread orders and 1-preemption schedules before sampling the 2-preemption ones)
         self.by_preemptions = by_preemptions
         self.rnd = __import__("random").Random(seed)
+        # after the depth-first budget (which favours late preemptions): this many more schedules, drawn uniformly
+        # from ALL pending branches (early preemptions included)
+        self.extra_random = extra_random
 
     def explore(self):
         results = []
         stack = [[]]
         pre = {(): 0}
         seen = set()
-        while stack and len(results) < self.max_runs:
-            if self.by_preemptions:
+        while stack and len(results) < self.max_runs + self.extra_random:
+            if len(results) >= self.max_runs:
+                prefix = stack.pop(self.rnd.randrange(len(stack)))
+            elif self.by_preemptions:
                 lo = min(pre.get(tuple(p), 0) for p in stack)
                 cands = [i for i, p in enumerate(stack) if pre.get(tuple(p), 0) == lo]
                 prefix = stack.pop(self.rnd.choice(cands))
